@@ -9,6 +9,7 @@
 From Coq Require Import String List Arith Bool ZArith.
 Import ListNotations.
 From NP Require Import Base Values Arrow Frame Proofs_Reduce.
+From NP Require Import Dtype Names Reduce2 Proofs_Reduce2.
 
 Theorem C10_calls : forall rows cols, cols <> [] -> forallb (col_ok (length rows)) cols = true ->
   m_reduce_calls rows cols = spec_reduce_calls rows cols.
@@ -23,6 +24,49 @@ Print Assumptions C10_one_call_per_row.
 Theorem C10_count_nested : forall rows, m_count_nested rows = map (fun r => length (recs r)) rows.
 Proof. exact count_nested_spec. Qed.
 Print Assumptions C10_count_nested.
+
+(* which arguments are columns (Reduce2.v mirrors the scan of NestedFrame.reduce): for EVERY argument list and every
+   frame (known = "this string names a known column"), what reduce takes as (requested columns, extra arguments) splits
+   the arguments, the columns are known-column strings, the first extra argument is not one - and that determines the
+   answer: an argument after the first non-column is never taken for a column, whatever it spells *)
+Theorem C10_argument_split_sound : forall (known : str -> bool) args cols extra,
+  m_reduce_split known args = Ok (cols, extra) ->
+  map AStr cols ++ extra = args /\ forallb known cols = true /\ cols <> [] /\
+  match extra with a :: _ => is_known_str known a = false | [] => True end.
+Proof. exact split_sound. Qed.
+Print Assumptions C10_argument_split_sound.
+
+Theorem C10_argument_split_unique : forall (known : str -> bool) args cols extra,
+  map AStr cols ++ extra = args -> forallb known cols = true -> cols <> [] ->
+  match extra with a :: _ => is_known_str known a = false | [] => True end ->
+  m_reduce_split known args = Ok (cols, extra).
+Proof. exact split_unique. Qed.
+Print Assumptions C10_argument_split_unique.
+
+Theorem C10_argument_split_refused : forall (known : str -> bool) args,
+  m_reduce_split known args = Err <-> match args with a :: _ => is_known_str known a = false | [] => True end.
+Proof. exact split_refused. Qed.
+Print Assumptions C10_argument_split_refused.
+
+(* outputs named 'x.y' are packed into the nested column x with the fields y (in output order), the plain outputs stay,
+   for ANY list of distinct output names in which no plain output is named like a layer (with such a clash the plain
+   output is silently replaced: Proofs_Reduce2.layer_clash_loses_a_column - the property does not say what a function
+   returning both 'out' and 'out.a' means) *)
+Theorem C10_dotted_outputs_packed : forall cols,
+  names_distinct cols = true -> no_layer_clash cols = true -> m_infer_nesting cols = spec_infer_nesting cols.
+Proof. exact infer_nesting_spec. Qed.
+Print Assumptions C10_dotted_outputs_packed.
+
+Theorem C10_plain_outputs_kept : forall cols c,
+  names_distinct cols = true -> no_layer_clash cols = true -> In c cols -> has_char DOT c = false ->
+  In (OBase c) (m_infer_nesting cols).
+Proof. exact infer_nesting_plain_kept. Qed.
+Print Assumptions C10_plain_outputs_kept.
+
+Theorem C10_layer_is_text_before_first_dot : forall l c, has_char DOT l = false ->
+  starts_with (l ++ [DOT]) c = has_char DOT c && str_eqb (layer_of c) l.
+Proof. exact starts_with_layer. Qed.
+Print Assumptions C10_layer_is_text_before_first_dot.
 
 Example C10_nonvacuous :
   m_reduce_calls [Some [[VInt 1; VTok 5]; [VInt 2; VTok 6]]; None; Some []]
